@@ -2,6 +2,7 @@
 from props import cells
 
 RULE = ('all 31 data commands on generated masked arrays (rank 1-3, int64/float64, 1-5 inputs, mask density 0.2-0.5) whose missing cells hide hostile payloads (0, 1e20, -9999, 3.5, values inside the valid range, nan/inf); each case is run twice with different payloads; mask and values compared with the Coq model and with the exact reference. non-trivial = distinct case with at least one missing and one valid input cell')
+RULE += (' Every stream also has a stratified part: each command once per unusual element type (uint64 as the NetCDF reader returns for Positive Integer, uint8, int16), weighted commands with a weight of exactly 0 next to a cell missing only in that input, nine to twelve input layers, the same result mentioned twice, inputs re-laid in memory (Fortran order, transposed / reversed / strided views), B written before A, a Metadata argument on every third run.')
 TRUSTED = ["exact reference evaluator in drivers/cells_common.py (written from the property statements and the user documentation)",
            "numpy.ma.std enters the model as the oracle sigma (checked against the exact variance to 2^-20 relative)"]
 ASSUMPTIONS = ["exact rational arithmetic; IEEE rounding is absorbed by the tolerance 2^-36 relative; nan/inf results are not printable into Coq and are judged by the oracle only"]
